@@ -79,8 +79,21 @@ def ob_state_dm_inv(sys):
         v = S.to_vec_from_density_matrix_with_sparsity(c, M)
         ref = refs.ref_vec(M, B)
         M2 = S.to_density_matrix_from_vec(c, v)
-        return [Eq("vec==Tr(B†M)", v, ref), Eq("dm(vec(M))==M", M2, M)]
+        out = [Eq("vec==Tr(B†M)", v, ref), Eq("dm(vec(M))==M", M2, M)]
+        # the same matrix handed over in another memory layout (column-major view): the values decide, not the layout
+        MF = _fortran_view(M)
+        out.append(Eq("column-major input: vec==Tr(B†M)", S.to_vec_from_density_matrix_with_sparsity(c, MF), ref))
+        out.append(Eq("column-major input: var_from_density_matrix", S.to_var_from_density_matrix(c, MF, on_para_eq_constraint=False), ref))
+        return out
     return FnOb(inputs(), run)
+
+
+def _fortran_view(M):
+    """the same array values with column-major memory layout (a transposed view of a C-ordered copy of the transpose)"""
+    T = np.array(np.asarray(M).T, dtype=np.asarray(M).dtype, order="C", copy=True)
+    F = T.T
+    assert F.shape == np.shape(M) and not F.flags["C_CONTIGUOUS"]
+    return F.view(SymNd) if isinstance(M, SymNd) else F
 
 
 def ob_povm_mats(sys, m):
@@ -197,6 +210,10 @@ def ob_gate_hs_from_choi(sys):
         h3 = G.to_hs_from_choi_with_sparsity(c, C)
         out = [Eq("to_hs_from_choi==ref", h1, ref.real), Eq("with_dict==ref", h2, ref.real), Eq("with_sparsity==ref", h3, ref.real)]
         out.append(Eq("choi(hs(C))==C", G.to_choi_from_hs_with_sparsity(c, h3), C))
+        CF = _fortran_view(C)
+        out.append(Eq("column-major input: to_hs_from_choi_with_sparsity==ref", G.to_hs_from_choi_with_sparsity(c, CF), ref.real))
+        out.append(Eq("column-major input: to_hs_from_choi_with_dict==ref", G.to_hs_from_choi_with_dict(c, CF), ref.real))
+        out.append(Eq("column-major input: to_var_from_choi==hs", G.to_var_from_choi(c, CF, on_para_eq_constraint=False), np.asarray(ref.real, dtype=object).reshape(-1)))
         return out
     return FnOb(_herm_inputs("c", n, -BOX, BOX), run)
 
